@@ -925,6 +925,17 @@ func (c *Check) weakHashVariant() (equivalent bool) {
 				rv := &refViolation{What: "with the narrow hash function(s) weakened to 3 bits a sequential pass gives a different result", API: a,
 					Input: common.B64(c.Corpus.In[i]), A: c.Corpus.Ref[a][i], B: r, Idx: i, Kind: "fresh"}
 				curVariant = "weakhash"
+				// guard: the weakening itself must not change what the function computes
+				// for a single call in a fresh process; if it does, these functions are
+				// not mere key hashes and the variant says nothing about the shipped code
+				solo := []workerlib.ExplicitRun{{Tasks: [][]workerlib.ECall{{{API: uint8(a), Idx: int32(i), In: common.B64(c.Corpus.In[i]), Exp: common.B64(c.Corpus.Ref[a][i])}}}, Policy: simrtPolicyExplicit(), Est: 1 << 30}}
+				if prs := runExplicit(e, solo); prs.Summary == nil || len(prs.Violations) > 0 {
+					curVariant = ""
+					c.Knob.Rejected = append(c.Knob.Rejected, fmt.Sprintf("weakhash: weakening changes the result of a single fresh call (%s(%q)): not a key hash; variant dropped", apiName(a), trunc(c.Corpus.In[i], 40)))
+					c.Knob.WeakHash = nil
+					delete(e.Variants, "weakhash")
+					return false
+				}
 				v, session := c.refToSession(rv)
 				curVariant = ""
 				if v != nil {
